@@ -9,5 +9,6 @@ INVARIANT Boundaries
 INVARIANT ValueIff
 INVARIANT CumShape
 INVARIANT WholeIsIdentity
+INVARIANT Composition
 PROPERTY NoNewMass
 CHECK_DEADLOCK FALSE
